@@ -1,0 +1,27 @@
+//go:build verif
+
+package plumbing
+
+// Contracts for the gvc verifier (/verif). Comment-only; never compiled into
+// a normal build.
+
+//gvc:func ObjectID.Size
+//gvc:  props C10
+//gvc:  theory int
+//gvc:  ensures twenty: result == 20 || result == 32
+//gvc:end
+
+//gvc:func ObjectID.Bytes
+//gvc:  props C10
+//gvc:  theory int
+//gvc:  ensures size: len(result) == 20 || len(result) == 32
+//gvc:  ensures content: forall(k, 0, len(result), result[k] == s.hash[k])
+//gvc:end
+
+// Compare is bytes.Compare of the id's bytes with b: assumed to be a
+// function of the id and of b's bytes (trusted; bytes.Compare is a dependency).
+//gvc:func ObjectID.Compare
+//gvc:  trusted
+//gvc:  ensures cmp: result == spec_bytes_cmp(arr(s.hash), arr(b), off(b), len(b))
+//gvc:  ensures sign: -1 <= result && result <= 1
+//gvc:end
